@@ -2390,7 +2390,13 @@ impl ModuleGraph {
       roots.iter().copied(),
       WalkOptions {
         follow_dynamic: true,
-        kind: self.graph_kind,
+        // a types only walk passes over code modules that have a types
+        // dependency, but those modules are part of the graph and the
+        // modules importing them still refer to them, so keep them
+        kind: match self.graph_kind {
+          GraphKind::TypesOnly => GraphKind::All,
+          kind => kind,
+        },
         check_js: CheckJsOption::True,
         prefer_fast_check_graph: false,
       },
